@@ -279,6 +279,17 @@ def run(spec, rec):
                 again = fs.project(to)
                 rec.check("cache-transparent", np.array_equal(cold.data, again.data) and np.array_equal(cold.mask, again.mask), site="Spectrum.project",
                           tags={"ndim": ndim, "after": "from_data_dict"}, observed={"max_abs_diff": float(np.max(np.abs(np.asarray(cold.data) - np.asarray(again.data))))})
+            # another user of the module that memoises the weights: the low-pass projection matrices with inbreeding are other
+            # numbers for the same (to, from) sizes; building them first must not change what project() uses afterwards
+            evens = [(n, t) for n, t in zip(ns, to) if n % 2 == 0 and t % 2 == 0 and 2 <= t < n]
+            if evens:
+                from dadi.LowPass import LowPass as LP
+                Numerics._projection_cache.clear()
+                for n, t in evens:
+                    rec.noraise("project-returns", lambda: LP.projection_matrix(n, t, float(rng.choice([0.2, 0.5]))), site="LowPass.projection_matrix")
+                again = fs.project(to)
+                rec.check("cache-transparent", np.array_equal(cold.data, again.data) and np.array_equal(cold.mask, again.mask), site="Spectrum.project",
+                          tags={"ndim": ndim, "after": "LowPass.projection_matrix"}, observed={"max_abs_diff": float(np.max(np.abs(np.asarray(cold.data) - np.asarray(again.data))))})
     elif kind == "singlemask":
         # every single-entry mask for small n
         for n in range(2, spec["nmax"] + 1):
